@@ -113,7 +113,11 @@ func (g *pgen) mainStmts(depth int, declared map[string]int) []zn.Stmt {
 	n := 1 + g.pick(5, "nstmts")
 	var out []zn.Stmt
 	for i := 0; i < n; i++ {
-		switch g.pick(12, "mk") {
+		switch g.pick(13, "mk") {
+		case 12:
+			// 得到 after a method call on a VALUE binds a constant as well (R / A may be assigned later)
+			out = append(out, &zn.ExprStmt{E: &zn.MCall{Root: &zn.ListLit{Items: []zn.Expr{g.k()}}, Chain: []zn.Call{{Name: "后增", Args: []zn.Expr{g.k()}}}, Yield: []string{"R", "A", "X"}[g.pick(3, "myl")]}})
+			g.labels["yield-after-method-call"] = true
 		case 0, 1:
 			nm := mainNames[g.pick(3, "ln")]
 			if g.pick(8, "predef") == 0 {
